@@ -194,6 +194,9 @@ impl ClockShared {
 
 	#[must_use]
 	pub fn fractional_position(&self) -> f64 {
+		// only called by `ClockHandle::time`, after it has loaded `ticks`
+		#[cfg(kira_verif)]
+		crate::verif::yield_point("ClockHandle::time between the ticks load and the fraction load");
 		f64::from_bits(self.fractional_position.load(Ordering::SeqCst))
 	}
 
@@ -302,6 +305,8 @@ impl Clock {
 			} => (*ticks, *fractional_position),
 		};
 		self.shared.ticks.store(ticks, Ordering::SeqCst);
+		#[cfg(kira_verif)]
+		crate::verif::yield_point("Clock::update_shared between the ticks store and the fraction store");
 		self.shared
 			.fractional_position
 			.store(fractional_position.to_bits(), Ordering::SeqCst);
